@@ -64,13 +64,29 @@ def match_brace(src, i):
     die("unbalanced braces")
 
 def fn_body(src, name, nth=0, what=None):
-    """body (between braces) of the nth function called `name`."""
-    hits = [m for m in re.finditer(r'\bfn\s+' + re.escape(name) + r'\s*(<[^>]*>)?\s*\(', src)]
+    """body (between braces) of the nth function called `name` (generic parameter lists may nest)."""
+    hits = []
+    for m in re.finditer(r'\bfn\s+' + re.escape(name) + r'\b', src):
+        k = m.end()
+        while k < len(src) and src[k].isspace(): k += 1
+        if k < len(src) and src[k] == '<':
+            depth = 0
+            while k < len(src):
+                if src[k] == '<': depth += 1
+                elif src[k] == '>' and src[k - 1] != '-':
+                    depth -= 1
+                    if depth == 0:
+                        k += 1; break
+                k += 1
+            while k < len(src) and src[k].isspace(): k += 1
+        if k < len(src) and src[k] == '(':
+            hits.append(k)
     if len(hits) <= nth:
         die(f"function {name} (occurrence {nth}) not found{' in ' + what if what else ''}")
-    m = hits[nth]
-    i = src.find('{', m.end())
-    # skip a where clause / return type containing no braces
+    i = src.find('{', hits[nth])
+    semi = src.find(';', hits[nth])
+    if 0 <= semi < i:
+        die(f"function {name} (occurrence {nth}) has no body")
     j = match_brace(src, i)
     return src[i + 1:j - 1]
 
@@ -530,12 +546,80 @@ def gen_orderings(srcs):
         out.append(f"Definition ord_{f}_{k} : ord := {o}.   (* {op} *)")
     return "\n".join(out), sites
 
+# ------------------------------------------------------------------ call skeletons of the hand-modelled functions
+SKEL_CALLS = re.compile(r'\b(reserve|ensure_modifiable|replace_inner|set_len|truncate_unchecked|with_additional|with_exact_capacity|'
+                        r'with_capacity|realloc|dealloc|alloc|is_unique|make_shallow_clone|as_str|as_bytes|as_slice_mut|as_str_mut|'
+                        r'assert|copy|copy_nonoverlapping|copy_from_slice|from_str|from_heap|from_inline|from_static|checked_add|'
+                        r'fetch_add|fetch_sub|fence|load|allocate_ptr|layout_from_capacity|amortized_growth|encode_utf8|push_str|push|'
+                        r'try_reserve|try_push_str|unwrap_with_msg|is_char_boundary|next_back|is_len_on_heap|new|empty|write)\s*(?:::<[^>]*>)?\s*[!(]')
+SKEL_FUNCS = [
+    ('repr', 'from_str', 0), ('repr', 'from_static_str', 0), ('repr', 'with_capacity', 0), ('repr', 'reserve', 0), ('repr', 'shrink_to', 0),
+    ('repr', 'push_str', 0), ('repr', 'pop', 0), ('repr', 'remove', 0), ('repr', 'retain', 0), ('repr', 'insert_str', 0),
+    ('repr', 'truncate', 0), ('repr', 'truncate_unchecked', 0), ('repr', 'make_shallow_clone', 0), ('repr', 'replace_inner', 0),
+    ('repr', 'ensure_modifiable', 0), ('repr', 'set_len', 0),
+    ('heap', 'new', 0), ('heap', 'with_capacity', 0), ('heap', 'with_additional', 0), ('heap', 'with_exact_capacity', 0),
+    ('heap', 'realloc', 0), ('heap', 'dealloc', 0), ('heap', 'allocate_ptr', 0), ('heap', 'set_len', 0),
+    ('inline', 'new', 0), ('inline', 'set_len', 0),
+    ('lib', 'clear', 0), ('lib', 'clone_from', 0), ('lib', 'drop', 0), ('lib', 'from_iter', 0), ('lib', 'extend', 0), ('lib', 'write_str', 0),
+    ('lib', 'from_utf8_lossy', 0), ('lib', 'from_utf16', 0), ('traits', 'try_to_lean_string', 1),
+]
+def strip_cfg_verif(src):
+    """remove statements / items guarded by #[cfg(...lean_string_verif...)] (the verification hooks)"""
+    out = src
+    while True:
+        m = re.search(r'#\[cfg\((?:all\()?lean_string_verif[^\]]*\]\s*', out)
+        if not m:
+            return out
+        j = m.end()
+        # guarded thing: up to the matching `;` or balanced `{...}` whichever closes the item first
+        k = j; depth = 0
+        while k < len(out):
+            c = out[k]
+            if c in '({[': depth += 1
+            elif c in ')}]':
+                depth -= 1
+                if depth == 0 and c == '}':
+                    k += 1; break
+            elif c == ';' and depth == 0:
+                k += 1; break
+            k += 1
+        out = out[:m.start()] + out[k:]
+
+def strip_debug_asserts(body):
+    """debug_assert*!(...) statements are not part of the modelled behaviour (adding or removing one is harmless)"""
+    out = body
+    while True:
+        m = re.search(r'\bdebug_assert\w*!\s*\(', out)
+        if not m:
+            return out
+        k = m.end() - 1; depth = 0
+        while k < len(out):
+            if out[k] == '(': depth += 1
+            elif out[k] == ')':
+                depth -= 1
+                if depth == 0:
+                    k += 1; break
+            k += 1
+        out = out[:m.start()] + out[k:]
+
+def gen_skeletons(srcs):
+    out = ["(* ---- call skeletons: the significant calls of each hand-modelled function, in textual order ---- *)"]
+    items = []
+    for key, fn, occ in SKEL_FUNCS:
+        body = strip_debug_asserts(fn_body(strip_cfg_verif(srcs[key]), fn, occ, key))
+        calls = [m.group(1) for m in SKEL_CALLS.finditer(body)]
+        items.append((key, fn, calls))
+    out.append("Definition skeletons : list (string * string * list string) :=")
+    out.append("  [" + ";\n   ".join('("%s"%%string, "%s"%%string, [%s])' % (k, f, "; ".join('"%s"%%string' % c for c in cs)) for k, f, cs in items) + "].")
+    return "\n".join(out)
+
 def main():
     repo, outp = sys.argv[1], sys.argv[2]
     rd = lambda p: open(os.path.join(repo, p)).read()
     try:
         raw = {'repr': rd('src/repr.rs'), 'heap': rd('src/repr/heap_buffer.rs'), 'inline': rd('src/repr/inline_buffer.rs'),
-               'static': rd('src/repr/static_buffer.rs'), 'last': rd('src/repr/last_byte.rs'), 'num': rd('src/repr/num_to_repr.rs')}
+               'static': rd('src/repr/static_buffer.rs'), 'last': rd('src/repr/last_byte.rs'), 'num': rd('src/repr/num_to_repr.rs'),
+               'lib': rd('src/lib.rs'), 'traits': rd('src/traits.rs')}
         srcs = {k: strip_comments(v) for k, v in raw.items()}
         lb, consts = gen_last_byte(raw['last'])
         consts.update({'MAX_INLINE_SIZE': 'MAX_INLINE_SIZE', 'MAX_LEN': 'MAX_LEN', 'Self::MAX_LENGTH': 'STATIC_MAX_LENGTH'})
@@ -548,6 +632,7 @@ def main():
         o, sites = gen_orderings(srcs)
         parts.append(o)
         parts.append(gen_digits(raw['num']))
+        parts.append(gen_skeletons(srcs))
     except TranslationError as e:
         sys.stderr.write(f"translate.py: TRANSLATION FAILED: {e}\n")
         sys.exit(3)
